@@ -38,6 +38,26 @@ def legS (a p : Int) : Int :=
 
 def isSmallPrime (n : Nat) : Bool := n ≥ 2 && (List.range (Nat.sqrt n + 1)).all fun d => d < 2 || n % d != 0
 
+/-- strong-probable-prime test to the first 13 prime bases (deterministic below 3.3·10^24; a necessary condition above): used to decide
+whether a modulus ≥ 2^32 presented to bn_smb_leg is inside the contract (odd prime) -/
+def isPrimeMR (n : Nat) : Bool :=
+  let bases := [2, 3, 5, 7, 11, 13, 17, 19, 23, 29, 31, 37, 41]
+  if n < 2 then false
+  else if bases.contains n then true
+  else if bases.any (fun p => n % p = 0) then false
+  else
+    let rec split (d s : Nat) (fuel : Nat) : Nat × Nat :=
+      match fuel with
+      | 0 => (d, s)
+      | f + 1 => if d % 2 = 0 then split (d / 2) (s + 1) f else (d, s)
+    let (d, s) := split (n - 1) 0 (Nat.log2 n + 1)
+    bases.all fun a =>
+      let x := (powModI a d n).toNat
+      if x = 1 ∨ x = n - 1 then true
+      else (List.range (s - 1)).foldl (fun (st : Nat × Bool) _ =>
+        let y := st.1 * st.1 % n
+        (y, st.2 || y = n - 1)) (x, false) |>.2
+
 def expTags (l wd : Nat) (e : Nat) : List String :=
   (if l < wd then ["e-shorter-than-window"] else []) ++
   (if e + 1 == 2 ^ l ∧ l > 1 then ["e-all-ones"] else []) ++
@@ -95,7 +115,7 @@ def handle (w cap digs : Nat) (op : String) (args : List String) (got : String) 
       | none => "err"
     -- specification: the Legendre symbol for an odd prime b (the generator passes primes; small ones are re-checked here);
     -- anything else is outside the contract: the model alone judges
-    let prime := b > 2 ∧ (b ≥ 2 ^ 32 ∨ isSmallPrime b.toNat)
+    let prime := b > 2 ∧ (if b ≥ 2 ^ 32 then isPrimeMR b.toNat else isSmallPrime b.toNat)
     let spec : List String := if prime then [toString (legS a b)] else [outS pred]
     let tags := ["smb-leg"] ++
       (if b < 0 then ["leg-b<0-err"] else if a = b then ["leg-a=b"] else if ¬ prime then ["leg-b-not-odd-prime"] else
